@@ -61,6 +61,7 @@ func runC07(r *Run) {
 	if r.Want("probe") {
 		c07Probes(r)
 	}
+	c07CancelDuringOpen(r)
 }
 
 // c07Strict is a client transport that refuses to write once the write's context is done, as a
